@@ -329,18 +329,26 @@ func (c *Client) Backup(ctx context.Context, br *command.BackupRequest, nodeAddr
 
 	// The backup stream is unconditionally compressed, so depending on whether
 	// the user requested compression, we may need to decompress the response.
-	var rc io.ReadCloser
-	rc = conn
-	if !br.Compress {
-		gzr, err := gzip.NewReader(conn)
+	if br.Compress {
+		// The user wants the compressed bytes, so pass them through unchanged.
+		// Decode them on the side though: only the gzip framing tells us where the
+		// stream ends, and whether it ended early.
+		gzr, err := gzip.NewReader(io.TeeReader(conn, w))
 		if err != nil {
 			return err
 		}
+		defer gzr.Close()
 		gzr.Multistream(false)
-		rc = gzr
-		defer rc.Close()
+		_, err = io.Copy(io.Discard, gzr)
+		return err
 	}
-	_, err = io.Copy(w, rc)
+	gzr, err := gzip.NewReader(conn)
+	if err != nil {
+		return err
+	}
+	defer gzr.Close()
+	gzr.Multistream(false)
+	_, err = io.Copy(w, gzr)
 	return err
 }
 
